@@ -7,7 +7,7 @@ import msggen
 
 PROPFILES = ["props/C01.v"]
 RULE = ("well-formed frames: every message id x msgmode{GET,SET,POLL,SETPOLL} x parsebitfield x payload lengths "
-        "{0,1,2,definition-1,definition,definition+1,+7, 64,300} x fills, sentinel bytes (00 20 0a 0d ff) at either end of the payload in the definition's own mode, structure-aware conforming payloads, unknown "
+        "{0,1,2,definition-1,definition,definition+1,+7, 64,300} x fills, sentinel bytes (00 20 0a 0d ff) at either end of the payload in the definition's own mode, payloads containing pieces of the repr()/str() syntax itself, structure-aware conforming payloads, unknown "
         "class/ids (thorough: all 65536 x lengths 0..2); PARSE and PARSERT (eval(repr)) correspondence + search on the "
         "implementation: serialize()==input, msg_cls/msg_id/length/payload == frame fields, eval(repr(m)).serialize() "
         "== input. non-trivial = distinct accepted frames.")
@@ -50,6 +50,14 @@ def frames(ctx):
                 for L in (0, 1, 2):
                     out.append((bytes([c, i]), bytes(rng.randrange(256) for _ in range(L))))
         ctx.exhaustive_parts.append("all 65536 class/id pairs x payload lengths 0..2")
+    # payloads that contain pieces of the message's own repr()/str() syntax (text-level post-processing of repr must
+    # not touch the bytes literal), quotes, backslashes, newlines
+    toks = [b", payload=None", b", parsebitfield=True", b", parsebitfield=False", b"UBXMessage(", b"payload=b'", b"')", b"\\x00",
+            b"'", b'"', b"\\", b"\r\n", b"<UBX(", b")>", b"b'", b", "]
+    for key, mode in ((b"\x04\x02", 0), (b"\x04\x04", 0), (b"\x77\x01", 0), (b"\x05\x01", 0), (b"\x06\x01", 1), (b"\x0a\x04", 0)):
+        for t in toks:
+            for pl in (t, b"ab" + t + b"cd", t + t, b"x" * 7 + t):
+                out.append((key, pl, mode))
     # a maximal-length payload
     out.append((b"\x77\x01", bytes(65535)))
     return out
